@@ -19,7 +19,7 @@ PROPERTY = "C10"
 
 HISTORY = ["PRINT_STARTED", "PRINT_CANCELLED", "PRINT_DONE", "ENTER", "MOVE_OUT", "DEFERRED", "AT_OFF", "G20", "G91",
            "RETRACT", "RECOVER", "G92E", "M206", "G10", "ZMOVE", "FEED"]
-PROBE = [S("G1", "X# Y# E#"), S("G1", "X#"), S("G1", "E#"), S("G1", "Z#"), S("G11", ""), S("M204", "P#")]
+PROBE = [S("G1", "X# Y# E#"), S("G1", "X#"), S("G1", "E#"), S("G1", "Z#"), S("G11", ""), S("M204", "P#"), S("G20"), S("G91")]
 
 
 def same_result(w, ra, rb):
@@ -42,7 +42,7 @@ def same_result(w, ra, rb):
 
 def scen(w, H=2, K=1):
     ext = [{"gcode": "M204", "mode": "merge", "description": ""}]
-    A = pu.make_plugin(w, extended=ext, exit_="M117 out\n")
+    A = pu.make_plugin(w, extended=ext, exit_="M117 out\n", enter="M117 in\n")
     Events = pu.events(w)
     spec = pl.fresh_region(w, "rect", "r0")
     pa = pl.Pipe(w, plugin=A, track_p=False)
@@ -54,14 +54,14 @@ def scen(w, H=2, K=1):
         w.cover("hist-" + item)
         pa.program.append("<%s>" % item)
         if item in ("PRINT_STARTED", "PRINT_CANCELLED", "PRINT_DONE"):
-            A.on_event(getattr(Events, item), None)
+            pu.fire(A, item)
             if item == "PRINT_STARTED":
                 started = True
                 pa.feed("G28", catch=False)
             continue
         if not started:
             # commands only have an effect on the tracked state while a print is active
-            A.on_event(Events.PRINT_STARTED, None)
+            pu.fire(A, "PRINT_STARTED")
             started = True
             pa.feed("G28", catch=False)
         n = pa.k
@@ -99,14 +99,14 @@ def scen(w, H=2, K=1):
         elif item == "FEED":
             pa.feed("G1 F%s" % w.key(w.real("h%d_F" % n)), catch=False)
     history = list(pa.program)
-    A.on_event(Events.PRINT_STARTED, None)
+    pu.fire(A, "PRINT_STARTED")
     snap_a = snapshot(A.state)
     list_a = [r.toDict() for r in A.state.excludedRegions]
     # fresh plugin with the same regions and settings
-    B = pu.make_plugin(w, extended=ext, exit_="M117 out\n")
+    B = pu.make_plugin(w, extended=ext, exit_="M117 out\n", enter="M117 in\n")
     pb = pl.Pipe(w, plugin=B, track_p=False)
     pb.add_region(spec)
-    B.on_event(Events.PRINT_STARTED, None)
+    pu.fire(B, "PRINT_STARTED")
     desc = "history %r then PrintStarted" % (history,)
     w.note("program", history)
     if not w.check(same_data(snap_a, snapshot(B.state)), "tracked-state-equals-fresh-plugin", desc):
@@ -143,7 +143,7 @@ META = {
 
 
 def plan(tier):
-    H, K = (2, 1) if tier == "quick" else (3, 2)
+    H, K = (2, 2) if tier == "quick" else (3, 2)
     return [Scenario("history", scen, params={"H": H, "K": K},
                      cover=["hist-" + h for h in HISTORY] + ["probe-" + s.tag for s in PROBE],
                      bounds={"history steps": H, "probe commands": K})]
